@@ -69,16 +69,17 @@ def condOperands (S : Schema) (d : StructDef) (c : Cond) : String × String :=
     | .sizeRef .. => (toString c.value, "_computed")
     | _ => (toString c.value, "")
 
-/-- `generate_condition(field, prefix_field=True)` without the trailing newline; `none` for an unconditional member -/
+/-- `generate_condition(field, prefix_field=True)` without the trailing newline; `none` for an unconditional member.
+    The tested member and the discriminant are referred to by their generated (`fix_name`) names. -/
 def conditionLine (S : Schema) (d : StructDef) (f : Field) : Option String :=
   match f.cond with
   | none => none
   | some c =>
-    if c.viaSelf then some ("if self." ++ f.name ++ ":")
+    if c.viaSelf then some ("if self." ++ printerName f.name ++ ":")
     else
       let op := match c.op with | .eq => "==" | .ne => "!=" | .isIn => "in" | .notIn => "not in"
       let operands := condOperands S d c
-      some ("if " ++ operands.1 ++ " " ++ op ++ " self." ++ c.field ++ operands.2 ++ ":")
+      some ("if " ++ operands.1 ++ " " ++ op ++ " self." ++ printerName c.field ++ operands.2 ++ ":")
 
 def arraySizeCall (attr : String) (align : Nat) (padLast : Bool) : String :=
   if align != 0 then
@@ -112,10 +113,9 @@ def storeExpr (d : StructDef) (f : Field) : String :=
     if align != 0 then
       "ArrayHelpers.write_variable_size_elements(self._" ++ attr ++ ", " ++ toString align ++
         ", skip_last_element_padding=" ++ pyBool (!padLast) ++ ")"
-    else match mode, sortKey with
-      | .fill, _ => "ArrayHelpers.write_array(self._" ++ attr ++ ")"
-      | _, some k => "ArrayHelpers.write_array(self._" ++ attr ++ ", " ++ sortAccessor k ++ ")"
-      | _, none => "ArrayHelpers.write_array(self._" ++ attr ++ ")"
+    else match sortKey with
+      | some k => "ArrayHelpers.write_array(self._" ++ attr ++ ", " ++ sortAccessor k ++ ")"
+      | none => "ArrayHelpers.write_array(self._" ++ attr ++ ")"
 
 def guarded (cond : Option String) (line : String) : List String :=
   match cond with
@@ -179,7 +179,8 @@ def loadExpr (S : Schema) (f : Field) (buffer : String) : String :=
       "ArrayHelpers.read_variable_size_elements(" ++ window ++ ", " ++ factory ++ ", " ++ toString align ++
         ", skip_last_element_padding=" ++ pyBool (!padLast) ++ ")"
     else match mode with
-      | .fill => "ArrayHelpers.read_array(buffer, " ++ factory ++ ")"
+      | .fill => "ArrayHelpers.read_array(buffer, " ++ factory ++
+          (match sortKey with | some k => ", " ++ sortAccessor k | none => "") ++ ")"
       | .count cf | .sized cf =>
         "ArrayHelpers.read_array_count(buffer, " ++ factory ++ ", " ++ cf ++
           (match sortKey with | some k => ", " ++ sortAccessor k | none => "") ++ ")"
@@ -204,7 +205,7 @@ def localConditionLine (S : Schema) (d : StructDef) (f : Field) : Option String 
   | none => none
   | some c =>
     let op := match c.op with | .eq => "==" | .ne => "!=" | .isIn => "in" | .notIn => "not in"
-    some ("if " ++ (condOperands S d c).1 ++ " " ++ op ++ " " ++ c.field ++ ":")
+    some ("if " ++ (condOperands S d c).1 ++ " " ++ op ++ " " ++ fixSizeName (printerName c.field) ++ ":")
 
 /-- `generate_deserialize_field(field, arg_buffer_name)` -/
 def deserializeFieldLines (S : Schema) (d : StructDef) (sizeMember : Option String) (f : Field) (argBuffer : Option String) : List String :=
@@ -504,8 +505,12 @@ def getterMethods (d : StructDef) : List Method :=
   (((d.fields.filter fun f => f.kind.isComputed).filter fun f => !isInherited d f).map fun f =>
     match f.kind with
     | .sizeRef _ _ target delta =>
+      -- a byte array is held as bytes, which have a length but no size property
+      let referencedSize := match d.fields.find? (·.name == target) with
+        | some ⟨_, .barray _, _⟩ => "len(self." ++ target ++ ")"
+        | _ => "self." ++ target ++ ".size"
       ({ annotations := ["@property"], name := printerName f.name ++ "_computed", result := "int",
-         body := ["return 0 if not self." ++ target ++ " else self." ++ target ++ ".size + " ++ toString delta] } : Method)
+         body := ["return 0 if not self." ++ target ++ " else " ++ referencedSize ++ " + " ++ toString delta] } : Method)
     | _ => { name := "", body := [] })
 
 def setterMethods (d : StructDef) : List Method :=
